@@ -49,6 +49,16 @@ Definition sync (ents : list ent) (running : rmap) (unknown : bool) (qupd : Z) (
     (flat_map (sync_ent running unknown qupd) ents ++
      map AKill (filter (fun u => negb (memN u (map e_uuid ents))) (map fst running))).
 
+(* requeue() re-checks the queue when its goroutine runs (since /repo commit dbd540e, finding F21): the
+   Unlock call is made only if queue.Get(uuid) still shows the container Locked.  [now] = what Get returns
+   at that moment (absent = not in the queue). *)
+Fixpoint nlook (u : N) (now : list (N * cstate)) : option cstate :=
+  match now with [] => None | (k, v) :: r => if N.eqb k u then Some v else nlook u r end.
+Definition still_locked (now : list (N * cstate)) (u : N) : bool :=
+  match nlook u now with Some Locked => true | _ => false end.
+Definition sync_unlocks (acts : list act) (now : list (N * cstate)) : list N :=
+  filter (still_locked now) (flat_map (fun a => match a with ARequeue u => [u] | _ => [] end) acts).
+
 (* fixStaleLocks: the uuids it would unlock = Locked entries without a process *)
 Definition stale_locks (ents : list ent) (running : rmap) : list N :=
   map e_uuid (filter (fun e => cstate_eqb (e_state e) Locked &&
